@@ -51,7 +51,7 @@ def build_decoded(ex, apath_variant='valid', version='0.6.3'):
         env.set_field(ex, w, 'index::entry::IndexEntry', 'apath', A.apath_of(apath_variant))
     n = A.mk_entry(ex, '/n', 'File', 3, addrs=[A.mk_addr(ex, gh, 0, 10)], mode=0o644)
     A.put_head(ex, st, 0, version)
-    A.put_hunk(ex, st, 0, 0, [root, w, n])
+    A.put_hunk(ex, st, 0, 0, [root, w, n], raw=True)
     # the tail is decoded too: its hunk count may say anything (a flipped digit), or be absent as in old archives
     if ex.branch(ex.fresh_bool('wtail_count_present'), 'tail has a count?'):
         # (chosen from a list: the count ends up in an error message, and a symbolic integer cannot be formatted)
